@@ -1034,3 +1034,26 @@ pub fn gen_db(rng: &mut Rng, u: &mut Universe) -> Db {
     u.seeds = quads.iter().map(|(s, p, o, _)| (s.clone(), p.clone(), o.clone())).collect();
     Db { quads, graphs }
 }
+
+/// a dataset large enough for the executor's parallel / chunked code paths (more than 64 intermediate rows per join
+/// input): 25-40 subjects, the universe's predicates, objects drawn from the subjects and the literals
+pub fn gen_big_db(rng: &mut Rng, u: &mut Universe) -> Db {
+    let ns = rng.range(25, 40);
+    let subs: Vec<String> = (0..ns).map(|i| format!("urn:n{}", i)).collect();
+    let mut quads = Vec::new();
+    let n = rng.range(90, 260);
+    for _ in 0..n {
+        let s = rng.pick(&subs).clone();
+        let p = rng.pick(&u.preds).clone();
+        let o = if rng.chance(2, 3) { rng.pick(&subs).clone() } else { rng.pick(&u.lits).clone() };
+        let g = if rng.chance(3, 4) { None } else { Some(rng.pick(&u.graphs).clone()) };
+        quads.push((s, p, o, g));
+    }
+    quads.sort();
+    quads.dedup();
+    rng.shuffle(&mut quads);
+    u.iris.extend(subs.iter().take(4).cloned());
+    u.seeds = quads.iter().map(|(s, p, o, _)| (s.clone(), p.clone(), o.clone())).collect();
+    Db { quads, graphs: vec![] }
+}
+
